@@ -833,6 +833,10 @@ class ExcelCompiler:
             self._gen_graph(address)
             cell_range = self.cell_map[address]
 
+        if not cell_range.address.is_range:
+            # a range expression (ie: intersection) which is a single cell
+            return self._evaluate(address)
+
         if cell_range.needs_calc:
             self.log.debug(f"Evaluating: {cell_range.address}, {cell_range.python_code}")
             if cell_range.address.is_unbounded_range:
